@@ -77,7 +77,12 @@ func genC12(r *kernel.Rand) *kernel.Scenario {
 	// 12 s (longer than the library's 10 s timeouts for taking the machine lock)
 	c["hold"] = int64(r.Weighted([]int{3, 2, 2}))
 	if c["virtual"] > 0 && r.Bool(0.25) {
-		c["vsettle_gap_ms"] = int64([]int{9990, 9998, 10000, 10002, 10010, 10500, 12000}[r.Intn(7)])
+		c["vsettle_gap_ms"] = int64([]int{9999, 10000, 10000, 10000, 10001, 10500, 12000}[r.Intn(7)])
+		if c["vsettle_gap_ms"] < 10400 {
+			// at the boundary of the hub's patience the outcome depends on what
+			// happens between the expiry and the de-registration: all yield points on
+			c["yield_pct"], c["long_yields"] = 100, 1
+		}
 	}
 	// Swarm weights: messages that the victim actually acts on (valid updates,
 	// sync messages for an open channel, well-formed proposals) create in-flight
